@@ -49,6 +49,26 @@ theorem C20_lookup {B P : Nat} {tbl : Array Nat} {cs : List Nat} (h : ValidCdf B
       subst this
       exact Or.inr (Or.inr hq)
 
+/-- non-contiguous lookup decoder (the extra unchecked access to the symbol) -/
+theorem C20_nclookup {Sym : Type} [DecidableEq Sym] [Inhabited Sym] {B P : Nat}
+    {labels : List Sym} {ext : List Nat} {last : Sym} {tbl : Array Nat}
+    (h : ValidExt P ext) (hlen : labels.length + 1 = ext.length) (hP : P ≤ B)
+    (hok : LookupOK P ext tbl) (q : Nat) :
+    let l : NcLookup Sym := { tbl := tbl, cdf := ncCdf B P labels ext last }
+    (q < 2 ^ P ∧ ∃ r, l.dec B P q = .ok r) ∨
+    (2 ^ P ≤ q ∧ P < B ∧ l.dec B P q = .error (.panic "lookup.quantile_function.assert")) ∨
+    (2 ^ B ≤ q) := by
+  intro l
+  rcases Nat.lt_or_ge q (2 ^ P) with hq | hq
+  · exact Or.inl ⟨hq, _, NcLookup.dec_canon h hlen hP hok hq⟩
+  · rcases Nat.lt_or_ge P B with hlt | hge
+    · refine Or.inr (Or.inl ⟨hq, hlt, ?_⟩)
+      simp only [l, NcLookup.dec]
+      rw [lookupQuantile_out_of_range (by omega) (by omega)]
+    · have : P = B := by omega
+      subst this
+      exact Or.inr (Or.inr hq)
+
 /-- uniform model: constructor, encoder lookup, quantile function (any `Probability` value),
     symbol table -/
 theorem C20_uniform {B P range : Nat} (hP1 : 1 ≤ P) (hP : P ≤ B) (hPU : P ≤ U)
@@ -103,10 +123,14 @@ example : ValidCdf 8 8 [0, 100, 200, 0] :=
   Contiguous.fromNonzeroFixedPoint_valid (B := 8) (P := 8) (probs := [100, 100]) (infer := true)
     (m := { cdf := [0, 100, 200, 0] }) (by decide) (by decide) (by decide) (by decide)
 
+example : ∃ m, Lookup.fromNonzeroFixedPoint 8 2 [1, 3] false = some m := ⟨_, rfl⟩
+example : ValidExt 8 [0, 100, 200, 256] := ⟨by decide, by decide, by decide, by decide⟩
+
 #print axioms C20_binary_search
 #print axioms C20_contiguous
 #print axioms C20_ncdec
 #print axioms C20_lookup
+#print axioms C20_nclookup
 #print axioms C20_uniform
 #print axioms C20_constructors
 
